@@ -22,7 +22,10 @@ PID = "C18"
 
 
 def _work(args):
-    seed, idx, n, m, k, nrec, method = args
+    seed, idx, n, m, k, nrec, method, policy = args
+    # the abort comes from the csvpath's own validation-mode: raise under the scratch policy, or from the configuration's error
+    # policy (the shipped default: raise, collect, stop, fail, print - the handler stops and fails the csvpath before it raises)
+    vm = "" if policy else " validation-mode: raise"
     rng = random.Random(seed * 7 + idx)
     fs = None
     grp = gen.make_group(rng, idx, n_members=n, groups=("core",))
@@ -41,10 +44,10 @@ def _work(args):
             # the first line of the file is a line like any other: a member that scans it ($data[*]) can abort on it
             mc["prog"]["scan"] = lang.scan("all")
             mc["prog"]["comps"] = []
-            texts.append(f"~ id: m{i} validation-mode: raise ~ $data[*][ line_number() == 0 -> @boom = mod(5, 0) ]")
+            texts.append(f"~ id: m{i}{vm} ~ $data[*][ line_number() == 0 -> @boom = mod(5, 0) ]")
         elif i == m:
             body = " ".join(lang.render(c) for c in mc["prog"]["comps"])
-            texts.append(f"~ id: m{i} validation-mode: raise ~ $data[1*][ {body} line_number() == {k} -> @boom = mod(5, 0) ]")
+            texts.append(f"~ id: m{i}{vm} ~ $data[1*][ {body} line_number() == {k} -> @boom = mod(5, 0) ]")
         else:
             texts.append(grouprun.member_text(mc, ident=f"m{i}"))
     good = ['~ id: ok1 ~ $data[*][ yes() ]']
@@ -53,7 +56,7 @@ def _work(args):
     raised = None
     try:
         with scratch.silence():
-            cp = grouprun.setup_project("abort", records, {"g": texts, "g2": good})
+            cp = grouprun.setup_project("abort", records, {"g": texts, "g2": good}, policy=policy)
             before = pharness.tree_hashes("inputs")
             r.install()
             log.install()
@@ -140,8 +143,9 @@ def main(tier):
             for m in range(n):
                 for k in range(0, nrec):       # every line is an abort point (line 0, the header-name row: a member that scans [*])
                     for method in methods:
-                        items.append((common.seed(), idx, n, m, k, nrec, method))
-                        idx += 1
+                        for policy in (None, "raise, collect, stop, fail, print"):
+                            items.append((common.seed(), idx, n, m, k, nrec, method, policy))
+                            idx += 1
     outs = common.pmap(_work, items, initializer=scratch.enter_scratch, chunksize=2)
     recs = []
     oom = 0
@@ -176,7 +180,7 @@ def main(tier):
     rep.rule = (f"every (member index, line number) abort point in groups of 1-{maxn} generated csvpaths over files of {nrecs} records, for "
                 f"{len(methods)} run methods; each aborted run followed by one further run on the same instance. non-trivial = distinct (method, group, abort line).")
     rep.assumptions = ["TLC; ArchiveTrace.tla AbortDiff", "the fault is injected through the DSL (mod(5, 0) under validation-mode raise)",
-                       "csvpath error policy of the scratch config: collect, print; csvpaths policy: raise, collect"]
+                       "csvpath error policy: collect, print with validation-mode: raise on the aborting member, or the shipped default raise, collect, stop, fail, print; csvpaths policy: raise, collect"]
     return rep.finish()
 
 
